@@ -255,6 +255,12 @@ def call_trait(w, it, selfty, trait, meth, args, callee, frame):
                 return mk_some(a)
             return mk_none()
         raise Unsupported("Iterator::next on %r" % (r,))
+    if trait == "Iterator" and meth in ITER_ADAPTORS:
+        r = deref1(it, args[0]) if isinstance(args[0], Ref) else args[0]
+        if isinstance(r, ModelObj) and r.type_name == "Iter":
+            return iter_adaptor(w, it, meth, r, args[1:], callee)
+    if key == ("FutureExt", "catch_unwind"):
+        return w.mk_catch_unwind(args[0])
     if key == ("Ord", "min"):
         a, b = args
         return a if it.truth(it.binop("Le", a, b)) else b
@@ -288,6 +294,98 @@ def call_trait(w, it, selfty, trait, meth, args, callee, frame):
     if name is not None:
         return crate_call(w, it, name, args, callee)
     raise Unsupported("trait call `%s` (receiver %r)" % (callee[:140], rt))
+
+
+ITER_ADAPTORS = ("filter", "map", "count", "any", "all", "find", "position", "for_each", "enumerate", "collect", "rev", "take",
+                 "skip", "cloned", "copied", "fold", "last", "nth", "sum", "filter_map", "find_map", "chain", "peekable", "by_ref")
+
+
+def iter_adaptor(w, it, meth, r, rest, callee):
+    """finite model iterators are adapted eagerly (closures are called in element order)"""
+    items = r.items[r.i:]
+    clo = Ref(Cell(rest[0], "iter-closure"), (), True) if rest and not isinstance(rest[0], (IntV, Ref)) else (rest[0] if rest else None)
+
+    def call(*a):
+        return it.call_closure(clo, list(a))
+
+    def asref(x):
+        return Ref(Cell(x, "iter-elem"), (), False)
+    if meth == "by_ref":
+        return Ref(Cell(r, "iter"), (), True)
+    if meth == "peekable":
+        return r
+    if meth == "filter":
+        return w.IterV([x for x in items if it.truth(call(asref(x)))])
+    if meth == "map":
+        return w.IterV([call(x) for x in items])
+    if meth == "filter_map":
+        out = [call(x) for x in items]
+        return w.IterV([o.fields[0] for o in out if o.variant == "Some"])
+    if meth == "count":
+        r.i = len(r.items)
+        return IntV(len(items), 64)
+    if meth == "last":
+        r.i = len(r.items)
+        return mk_some(items[-1]) if items else mk_none()
+    if meth == "nth":
+        n = rest[0].v
+        r.i = min(len(r.items), r.i + n + 1)
+        return mk_some(items[n]) if n < len(items) else mk_none()
+    if meth in ("any", "all"):
+        for k, x in enumerate(items):
+            t = it.truth(call(x))
+            if t == (meth == "any"):
+                r.i += k + 1
+                return meth == "any"
+        r.i = len(r.items)
+        return meth == "all"
+    if meth in ("find", "position", "find_map"):
+        for k, x in enumerate(items):
+            o = call(asref(x)) if meth == "find" else call(x)
+            if meth == "find_map":
+                if o.variant == "Some":
+                    r.i += k + 1
+                    return o
+                continue
+            if it.truth(o):
+                r.i += k + 1
+                return mk_some(x if meth == "find" else IntV(k, 64))
+        r.i = len(r.items)
+        return mk_none()
+    if meth == "for_each":
+        for x in items:
+            call(x)
+        return UNIT
+    if meth == "enumerate":
+        return w.IterV([Agg("tuple", "", [IntV(k, 64), x]) for k, x in enumerate(items)])
+    if meth == "collect":
+        if "Vec" not in callee.split("collect", 1)[-1]:
+            raise Unsupported("Iterator::collect into " + callee[-80:])
+        return w.VecV(list(items))
+    if meth == "rev":
+        return w.IterV(list(reversed(items)))
+    if meth == "take":
+        return w.IterV(items[:rest[0].v])
+    if meth == "skip":
+        return w.IterV(items[rest[0].v:])
+    if meth == "chain":
+        o = rest[0]
+        return w.IterV(items + (o.items[o.i:] if isinstance(o, ModelObj) else []))
+    if meth in ("cloned", "copied"):
+        return w.IterV([clone_value(w, it, deref(it, x)) if isinstance(x, Ref) else x for x in items])
+    if meth == "fold":
+        acc = rest[0]
+        f = Ref(Cell(rest[1], "fold-closure"), (), True)
+        for x in items:
+            acc = it.call_closure(f, [acc, x])
+        return acc
+    if meth == "sum":
+        acc = None
+        for x in items:
+            x = deref(it, x) if isinstance(x, Ref) else x
+            acc = x if acc is None else it.binop("Add", acc, x)
+        return acc if acc is not None else IntV(0, 64)
+    raise Unsupported("Iterator::" + meth)
 
 
 def is_type_param(t):
@@ -526,6 +624,26 @@ def install(w):
     @reg("std::future::poll_fn", "future::poll_fn")
     def poll_fn(w, it, a, c):
         return W.PollFn(a[0])
+
+    @reg("std::panic::catch_unwind", "panic::catch_unwind", "catch_unwind")
+    def panic_catch_unwind(w, it, a, c):
+        f = a[0]
+        if isinstance(f, Agg) and f.name == "AssertUnwindSafe":
+            f = f.fields[0]
+        try:
+            return mk_ok(it.call_closure(f, []))
+        except RustPanic as p:
+            w.unwinding_now = False
+            it.ex.event(ev="panic_caught", msg=p.msg[:80])
+            return mk_err(BoxV(Cell(Opaque("PanicPayload", p.msg), "panic payload"), "Box"))
+
+    @reg("std::future::ready", "future::ready")
+    def future_ready(w, it, a, c):
+        return W.ReadyFut(a[0])
+
+    @reg("std::future::pending", "future::pending")
+    def future_pending(w, it, a, c):
+        return W.ReadyFut(None, never=True)
 
     @reg("std::mem::drop", "mem::drop")
     def mem_drop(w, it, a, c):
@@ -1665,13 +1783,31 @@ def install(w):
 
     @reg("Runtime::block_on", "tokio::runtime::Runtime::block_on")
     def rt_block_on(w, it, a, c):
-        return w.block_on(it, a[1])
+        saved = getattr(w, "plain_thread", False)
+        w.plain_thread = False          # inside block_on the thread has a runtime context
+        try:
+            return w.block_on(it, a[1])
+        finally:
+            w.plain_thread = saved
+
+    @reg("tokio::runtime::Handle::try_current", "Handle::try_current")
+    def rt_try_current(w, it, a, c):
+        # a runtime context exists in every task and inside Runtime::block_on; not on the plain
+        # threads the blocking API is called from, nor on a freshly spawned std thread
+        if getattr(w, "plain_thread", False):
+            return mk_err(Agg("struct", "TryCurrentError", []))
+        return mk_ok(Agg("struct", "Handle", []))
 
     @reg("std::thread::spawn", "thread::spawn")
     def thread_spawn(w, it, a, c):
         # the helper thread is run to completion at the spawn point (its only interaction with
         # the caller is the result channel)
-        r = it.call_closure(a[0], [])
+        saved = getattr(w, "plain_thread", False)
+        w.plain_thread = True
+        try:
+            r = it.call_closure(a[0], [])
+        finally:
+            w.plain_thread = saved
         return Opaque("ThreadJoinHandle")
 
     class StdChan(ModelObj):
